@@ -23,11 +23,11 @@ open Clvm Clvm.Alloc
 
 /-! ### stack primitives as equations -/
 
-theorem pop_cons {s : MState} {v : Val} {vs : List Val} (h : s.valStack = v :: vs) :
+theorem bs_pop_cons {s : MState} {v : Val} {vs : List Val} (h : s.valStack = v :: vs) :
     s.pop = .ok (v, { s with valStack := vs, valLen := s.valLen - 1 }) := by
   unfold MState.pop; rw [h]
 
-theorem pop_ok_iff {s : MState} {v : Val} {s' : MState} :
+theorem bs_pop_ok_iff {s : MState} {v : Val} {s' : MState} :
     s.pop = .ok (v, s') ↔ ∃ vs, s.valStack = v :: vs ∧ s' = { s with valStack := vs, valLen := s.valLen - 1 } := by
   unfold MState.pop
   cases h : s.valStack with
@@ -38,7 +38,7 @@ theorem pop_ok_iff {s : MState} {v : Val} {s' : MState} :
     · rintro ⟨rfl, rfl⟩; exact ⟨xs, ⟨rfl, rfl⟩, rfl⟩
     · rintro ⟨vs, ⟨rfl, rfl⟩, rfl⟩; exact ⟨rfl, rfl⟩
 
-theorem push_ok_iff {s : MState} {v : Val} {s' : MState} :
+theorem bs_push_ok_iff {s : MState} {v : Val} {s' : MState} :
     s.push v = .ok s' ↔ s.valLen ≠ Gen.STACK_SIZE_LIMIT ∧
       s' = { s with valStack := v :: s.valStack, valLen := s.valLen + 1 } := by
   unfold MState.push
@@ -50,7 +50,7 @@ theorem push_ok_iff {s : MState} {v : Val} {s' : MState} :
     simp only [this, Bool.false_eq_true, if_false, Except.ok.injEq]
     exact ⟨fun h' => ⟨h, h'.symm⟩, fun h' => h'.2.symm⟩
 
-theorem pushEnv_ok_iff {s : MState} {v : Val} {s' : MState} :
+theorem bs_pushEnv_ok_iff {s : MState} {v : Val} {s' : MState} :
     s.pushEnv v = .ok s' ↔ s.envLen ≠ Gen.STACK_SIZE_LIMIT ∧
       s' = { s with envStack := v :: s.envStack, envLen := s.envLen + 1 } := by
   unfold MState.pushEnv
@@ -62,13 +62,13 @@ theorem pushEnv_ok_iff {s : MState} {v : Val} {s' : MState} :
     simp only [this, Bool.false_eq_true, if_false, Except.ok.injEq]
     exact ⟨fun h' => ⟨h, h'.symm⟩, fun h' => h'.2.symm⟩
 
-theorem push_ok {s : MState} (v : Val) (h : s.valLen ≠ Gen.STACK_SIZE_LIMIT) :
+theorem bs_push_ok {s : MState} (v : Val) (h : s.valLen ≠ Gen.STACK_SIZE_LIMIT) :
     s.push v = .ok { s with valStack := v :: s.valStack, valLen := s.valLen + 1 } := by
-  exact push_ok_iff.2 ⟨h, rfl⟩
+  exact bs_push_ok_iff.2 ⟨h, rfl⟩
 
-theorem pushEnv_ok {s : MState} (v : Val) (h : s.envLen ≠ Gen.STACK_SIZE_LIMIT) :
+theorem bs_pushEnv_ok {s : MState} (v : Val) (h : s.envLen ≠ Gen.STACK_SIZE_LIMIT) :
     s.pushEnv v = .ok { s with envStack := v :: s.envStack, envLen := s.envLen + 1 } := by
-  exact pushEnv_ok_iff.2 ⟨h, rfl⟩
+  exact bs_pushEnv_ok_iff.2 ⟨h, rfl⟩
 
 /-! ### `Steps`: n iterations of the loop -/
 
@@ -254,7 +254,7 @@ theorem pushOperands_eq : ∀ (ol : Val) (s : MState) (t : Val) (s' : MState),
     intro s t s' h
     simp only [pushOperands] at h
     obtain ⟨s1, h1, h⟩ := M_bind_ok h
-    obtain ⟨hl, rfl⟩ := push_ok_iff.1 h1
+    obtain ⟨hl, rfl⟩ := bs_push_ok_iff.1 h1
     obtain ⟨ops', vs', hall, hlen, hp⟩ := ihr _ t s' h
     refine ⟨ops' ++ [.SwapEval], vs' ++ [f], ?_, by simp [hlen], ?_⟩
     · intro o ho
@@ -309,15 +309,15 @@ theorem evalOpAtom_pushed {d : Dialect} {s s1 : MState} {o ol env : Val} {k : Na
     have := M_pure_ok h
     simp only [Prod.mk.injEq] at this
     obtain ⟨_, rfl⟩ := this
-    obtain ⟨_, rfl⟩ := push_ok_iff.1 h1
+    obtain ⟨_, rfl⟩ := bs_push_ok_iff.1 h1
     refine ⟨[], [ol], [], 0, rfl, ?_⟩
     intro ops nv ne ng na hb
     simpa using hb
   · simp only at h
     obtain ⟨s2, h1, h⟩ := M_bind_ok h
-    obtain ⟨_, rfl⟩ := pushEnv_ok_iff.1 h1
+    obtain ⟨_, rfl⟩ := bs_pushEnv_ok_iff.1 h1
     obtain ⟨s3, h2, h⟩ := M_bind_ok h
-    obtain ⟨_, rfl⟩ := push_ok_iff.1 h2
+    obtain ⟨_, rfl⟩ := bs_push_ok_iff.1 h2
     obtain ⟨⟨t, s4⟩, h3, h⟩ := M_bind_ok h
     obtain ⟨opsS, vsS, hall, hlen, hp⟩ := pushOperands_eq _ _ _ _ h3
     simp only at h
@@ -328,7 +328,7 @@ theorem evalOpAtom_pushed {d : Dialect} {s s1 : MState} {o ol env : Val} {k : Na
         have := M_pure_ok h
         simp only [Prod.mk.injEq] at this
         obtain ⟨_, rfl⟩ := this
-        obtain ⟨_, rfl⟩ := push_ok_iff.1 h4
+        obtain ⟨_, rfl⟩ := bs_push_ok_iff.1 h4
         unfold Pushed at hp
         subst hp
         cases hgc : d.gcCandidate o
@@ -368,7 +368,7 @@ theorem evalPair_pushed {cfg : Cfg} {d : Dialect} {s s1 : MState} {prog env : Va
     have := M_pure_ok h
     simp only [Prod.mk.injEq] at this
     obtain ⟨_, rfl⟩ := this
-    obtain ⟨_, rfl⟩ := push_ok_iff.1 h2
+    obtain ⟨_, rfl⟩ := bs_push_ok_iff.1 h2
     refine ⟨[], [r.2], [], 0, rfl, ?_⟩
     intro ops nv ne ng na hb
     simpa using hb
@@ -381,11 +381,11 @@ theorem evalPair_pushed {cfg : Cfg} {d : Dialect} {s s1 : MState} {prog env : Va
       split at h
       · cases h
       · obtain ⟨s2, h1, h⟩ := M_bind_ok h
-        obtain ⟨_, rfl⟩ := pushEnv_ok_iff.1 h1
+        obtain ⟨_, rfl⟩ := bs_pushEnv_ok_iff.1 h1
         obtain ⟨s3, h2, h⟩ := M_bind_ok h
-        obtain ⟨_, rfl⟩ := push_ok_iff.1 h2
+        obtain ⟨_, rfl⟩ := bs_push_ok_iff.1 h2
         obtain ⟨s4, h3, h⟩ := M_bind_ok h
-        obtain ⟨_, rfl⟩ := push_ok_iff.1 h3
+        obtain ⟨_, rfl⟩ := bs_push_ok_iff.1 h3
         have := M_pure_ok h
         simp only [Prod.mk.injEq] at this
         obtain ⟨_, rfl⟩ := this
@@ -408,12 +408,12 @@ structure Above (b s : MState) (ops : List Operation) (vs es : List Val) (gs : L
   alloc : s.allocatorStack = b.allocatorStack + na
 
 /-- the invariant of a bracketed evaluation above the base state `b` -/
-def Inv (b s : MState) : Prop :=
+def BracketInv (b s : MState) : Prop :=
   ∃ ops vs es gs na, Above b s ops vs es gs na ∧ Bal ops vs.length es.length gs.length na
 
 theorem Above.evalPair {cfg : Cfg} {d : Dialect} {b s s1 : MState} {ops vs es gs na} {prog env : Val} {k : Nat}
     (hA : Above b s ops vs es gs na) (hB : Bal ops (vs.length + 1) es.length gs.length na)
-    (h : evalPair cfg d s prog env = .ok (k, s1)) : Inv b s1 := by
+    (h : evalPair cfg d s prog env = .ok (k, s1)) : BracketInv b s1 := by
   obtain ⟨ops', vs', es', na', hp, hbp⟩ := evalPair_pushed h
   unfold Pushed at hp
   subst hp
@@ -447,7 +447,7 @@ theorem list_one_le {α} {l : List α} (h : 1 ≤ l.length) : ∃ a t, l = a :: 
 theorem stepOp_inv {cfg : Cfg} {d : Dialect} {b s s' : MState} {op : Operation} {ops vs es gs na}
     {cost em c : Nat} (hA : Above b s (op :: ops) vs es gs na)
     (hB : Bal (op :: ops) vs.length es.length gs.length na)
-    (h : stepOp cfg d { s with opStack := ops ++ b.opStack } op cost em = .ok (c, s')) : Inv b s' := by
+    (h : stepOp cfg d { s with opStack := ops ++ b.opStack } op cost em = .ok (c, s')) : BracketInv b s' := by
   have hA0 : Above b { s with opStack := ops ++ b.opStack } ops vs es gs na :=
     ⟨rfl, hA.vals, hA.vlen, hA.envs, hA.elen, hA.sfs, hA.alloc⟩
   generalize hs0 : ({ s with opStack := ops ++ b.opStack } : MState) = s0 at h hA0
@@ -459,12 +459,12 @@ theorem stepOp_inv {cfg : Cfg} {d : Dialect} {b s s' : MState} {op : Operation} 
     simp only [stepOp] at h
     unfold consOp at h
     obtain ⟨⟨v1, s1⟩, h1, h⟩ := M_bind_ok h
-    obtain ⟨r1, hr1, rfl⟩ := pop_ok_iff.1 h1
+    obtain ⟨r1, hr1, rfl⟩ := bs_pop_ok_iff.1 h1
     obtain ⟨⟨v2, s2⟩, h2, h⟩ := M_bind_ok h
-    obtain ⟨r2, hr2, rfl⟩ := pop_ok_iff.1 h2
+    obtain ⟨r2, hr2, rfl⟩ := bs_pop_ok_iff.1 h2
     obtain ⟨⟨p, c'⟩, _, h⟩ := M_bind_ok h
     obtain ⟨s3, h4, h⟩ := M_bind_ok h
-    obtain ⟨_, rfl⟩ := push_ok_iff.1 h4
+    obtain ⟨_, rfl⟩ := bs_push_ok_iff.1 h4
     have := M_pure_ok h
     simp only [Prod.mk.injEq] at this
     obtain ⟨_, rfl⟩ := this
@@ -483,9 +483,9 @@ theorem stepOp_inv {cfg : Cfg} {d : Dialect} {b s s' : MState} {op : Operation} 
     simp only [stepOp] at h
     unfold swapEvalOp at h
     obtain ⟨⟨v1, s1⟩, h1, h⟩ := M_bind_ok h
-    obtain ⟨r1, hr1, rfl⟩ := pop_ok_iff.1 h1
+    obtain ⟨r1, hr1, rfl⟩ := bs_pop_ok_iff.1 h1
     obtain ⟨⟨v2, s2⟩, h2, h⟩ := M_bind_ok h
-    obtain ⟨r2, hr2, rfl⟩ := pop_ok_iff.1 h2
+    obtain ⟨r2, hr2, rfl⟩ := bs_pop_ok_iff.1 h2
     simp only at h hr2
     rw [hA0.vals] at hr1
     simp only [List.cons_append, List.cons.injEq] at hr1
@@ -495,7 +495,7 @@ theorem stepOp_inv {cfg : Cfg} {d : Dialect} {b s s' : MState} {op : Operation} 
     split at h
     · cases h
     · obtain ⟨s3, h3, h⟩ := M_bind_ok h
-      obtain ⟨_, rfl⟩ := push_ok_iff.1 h3
+      obtain ⟨_, rfl⟩ := bs_push_ok_iff.1 h3
       refine Above.evalPair (ops := .Cons :: ops) (vs := v1 :: vt) (es := es) (gs := gs) (na := na) ?_ ?_ h
       · refine ⟨?_, rfl, ?_, hA0.envs, hA0.elen, hA0.sfs, hA0.alloc⟩
         · simp [MState.pushOp, hA0.ops]
@@ -526,7 +526,7 @@ theorem stepOp_inv {cfg : Cfg} {d : Dialect} {b s s' : MState} {op : Operation} 
     · rw [hA0.vals] at h
       simp only [List.cons_append] at h
       obtain ⟨s1, h1, h⟩ := M_bind_ok h
-      obtain ⟨_, rfl⟩ := push_ok_iff.1 h1
+      obtain ⟨_, rfl⟩ := bs_push_ok_iff.1 h1
       have := M_pure_ok h
       simp only [Prod.mk.injEq] at this
       obtain ⟨_, rfl⟩ := this
@@ -542,9 +542,9 @@ theorem stepOp_inv {cfg : Cfg} {d : Dialect} {b s s' : MState} {op : Operation} 
     simp only [stepOp] at h
     unfold applyOp at h
     obtain ⟨⟨v1, s1⟩, h1, h⟩ := M_bind_ok h
-    obtain ⟨r1, hr1, rfl⟩ := pop_ok_iff.1 h1
+    obtain ⟨r1, hr1, rfl⟩ := bs_pop_ok_iff.1 h1
     obtain ⟨⟨v2, s2⟩, h2, h⟩ := M_bind_ok h
-    obtain ⟨r2, hr2, rfl⟩ := pop_ok_iff.1 h2
+    obtain ⟨r2, hr2, rfl⟩ := bs_pop_ok_iff.1 h2
     simp only at h hr2
     rw [hA0.vals] at hr1
     simp only [List.cons_append, List.cons.injEq] at hr1
@@ -579,7 +579,7 @@ theorem stepOp_inv {cfg : Cfg} {d : Dialect} {b s s' : MState} {op : Operation} 
           · split at h
             · split at h
               · obtain ⟨s4, h4, h⟩ := M_bind_ok h
-                obtain ⟨_, rfl⟩ := push_ok_iff.1 h4
+                obtain ⟨_, rfl⟩ := bs_push_ok_iff.1 h4
                 have := M_pure_ok h
                 simp only [Prod.mk.injEq] at this
                 obtain ⟨_, rfl⟩ := this
@@ -604,7 +604,7 @@ theorem stepOp_inv {cfg : Cfg} {d : Dialect} {b s s' : MState} {op : Operation} 
         · cases h
         · cases h
         · obtain ⟨s4, h4, h⟩ := M_bind_ok h
-          obtain ⟨_, rfl⟩ := push_ok_iff.1 h4
+          obtain ⟨_, rfl⟩ := bs_push_ok_iff.1 h4
           have := M_pure_ok h
           simp only [Prod.mk.injEq] at this
           obtain ⟨_, rfl⟩ := this
@@ -617,8 +617,8 @@ theorem stepOp_inv {cfg : Cfg} {d : Dialect} {b s s' : MState} {op : Operation} 
 
 /-- the invariant holds wherever `runTo` (with `L` the base's operation-stack length) stops -/
 theorem runTo_inv (cfg : Cfg) (d : Dialect) (mc : Nat) (b : MState) (fuel : Nat) :
-    ∀ (s : MState) (cost : Nat) (cost' : Nat) (s' : MState) (fuel' : Nat), Inv b s →
-      runTo cfg d mc b.opStack.length fuel s cost = some (.ok (cost', s', fuel')) → Inv b s' := by
+    ∀ (s : MState) (cost : Nat) (cost' : Nat) (s' : MState) (fuel' : Nat), BracketInv b s →
+      runTo cfg d mc b.opStack.length fuel s cost = some (.ok (cost', s', fuel')) → BracketInv b s' := by
   induction fuel with
   | zero => intro s cost cost' s' fuel' _ h; simp [runTo] at h
   | succ n ih =>
@@ -658,7 +658,7 @@ theorem runTo_bracket {cfg : Cfg} {d : Dialect} {mc : Nat} {s s1 s' : MState} {p
     (hr : runTo cfg d mc s.opStack.length fuel s1 cost = some (.ok (cost', s', fuel'))) :
     ∃ v, s' = { s with valStack := v :: s.valStack, valLen := s.valLen + 1, ctr := s'.ctr } := by
   have hA : Above s s [] [] [] [] 0 := ⟨rfl, rfl, rfl, rfl, rfl, rfl, rfl⟩
-  have hI : Inv s s1 := hA.evalPair (by simp [Bal]) he
+  have hI : BracketInv s s1 := hA.evalPair (by simp [Bal]) he
   obtain ⟨ops, vs, es, gs, na, hA', hB⟩ := runTo_inv cfg d mc s fuel s1 cost cost' s' fuel' hI hr
   have hlen := runTo_stop_len cfg d mc _ fuel s1 cost cost' s' fuel' hr
   have hops : ops = [] := by
@@ -736,7 +736,7 @@ theorem Evals.path {cfg : Cfg} {d : Dialect} {mc : Nat} {sfs : List SoftforkGuar
   refine ⟨k, s.pushed v c0, 0, ?_, Steps.refl _ _ _ _ _⟩
   show (do let r ← liftE (pathLookup cfg b inl env); let s' ← s.push r.2; pure (r.1, s')) = _
   rw [h]
-  simp only [liftE, bind, Except.bind, push_ok v (hv ▸ hvl), pure, Except.pure, MState.pushed, hc]
+  simp only [liftE, bind, Except.bind, bs_push_ok v (hv ▸ hvl), pure, Except.pure, MState.pushed, hc]
 
 /-- `(q . x)` -/
 theorem Evals.quote {cfg : Cfg} {d : Dialect} {mc : Nat} {sfs : List SoftforkGuard} {vl el : Nat}
@@ -745,7 +745,7 @@ theorem Evals.quote {cfg : Cfg} {d : Dialect} {mc : Nat} {sfs : List SoftforkGua
     Evals cfg d mc sfs vl el (.pair (.atom ob oi) x) env c0 cost0 x (cost0 + Gen.QUOTE_COST) c0 := by
   intro s _ hv _ hc
   refine ⟨Gen.QUOTE_COST, s.pushed x c0, 0, ?_, Steps.refl _ _ _ _ _⟩
-  simp only [evalPair, evalOpAtom, hq, beq_self_eq_true, if_true, bind, Except.bind, push_ok x (hv ▸ hvl),
+  simp only [evalPair, evalOpAtom, hq, beq_self_eq_true, if_true, bind, Except.bind, bs_push_ok x (hv ▸ hvl),
     pure, Except.pure, MState.pushed, hc]
 
 /-! ### forward equations for the operations -/
@@ -770,7 +770,7 @@ theorem pushOperands_fwd : ∀ (args : Val) (s : MState),
     have hl : s.valLen ≠ Gen.STACK_SIZE_LIMIT := by omega
     have hp : (s.pushOp .SwapEval).push f =
         .ok { s with opStack := .SwapEval :: s.opStack, valStack := f :: s.valStack, valLen := s.valLen + 1 } :=
-      push_ok (s := s.pushOp .SwapEval) f hl
+      bs_push_ok (s := s.pushOp .SwapEval) f hl
     simp only [pushOperands, hp, bind, Except.bind]
     rw [ihr _ (by simp only []; omega)]
     simp only [argTerm, argList, List.length_cons, List.reverse_cons, List.append_assoc, List.cons_append,
@@ -796,13 +796,13 @@ theorem evalOpAtom_fwd {d : Dialect} {s : MState} {o args env : Val} {tb : Bool}
   cases hgc : d.gcCandidate o
   all_goals
     simp only [if_true, Bool.false_eq_true, if_false]
-    rw [pushEnv_ok env (by simpa [MState.pushOp] using hel)]
+    rw [bs_pushEnv_ok env (by simpa [MState.pushOp] using hel)]
     simp only [bind, Except.bind]
-    rw [push_ok (s := MState.pushOp _ _) o (by simp only [MState.pushOp]; omega)]
+    rw [bs_push_ok (s := MState.pushOp _ _) o (by simp only [MState.pushOp]; omega)]
     simp only []
     rw [pushOperands_fwd args _ (by simp only [MState.pushOp]; omega)]
     simp only [hterm, List.length_nil, bne_self_eq_false, Bool.false_eq_true, if_false]
-    rw [push_ok Val.nil (by simp only [MState.pushOp]; omega)]
+    rw [bs_push_ok Val.nil (by simp only [MState.pushOp]; omega)]
     simp only [pure, Except.pure, Except.ok.injEq, Prod.mk.injEq, true_and]
     apply MState.ext8 <;> (try rfl)
     simp only [MState.pushOp]; omega
@@ -813,9 +813,9 @@ theorem swapEvalOp_fwd {cfg : Cfg} {d : Dialect} {s : MState} {acc a : Val} {W :
     swapEvalOp cfg d s =
       evalPair cfg d ({ s with valStack := acc :: W, valLen := s.valLen - 1 - 1 + 1 }.pushOp .Cons) a env := by
   unfold swapEvalOp
-  rw [pop_cons hv]
+  rw [bs_pop_cons hv]
   simp only [bind, Except.bind]
-  rw [pop_cons (s := { s with valStack := a :: W, valLen := s.valLen - 1 }) rfl]
+  rw [bs_pop_cons (s := { s with valStack := a :: W, valLen := s.valLen - 1 }) rfl]
   have hl' := beq_eq_false_iff_ne.2 hl
   simp only [he, MState.push, hl', Bool.false_eq_true, if_false]
 
@@ -823,9 +823,9 @@ theorem consOp_fwd {s : MState} {v1 v2 : Val} {W : List Val} {c' : Ctr} (hv : s.
     (hp : s.ctr.newPair = .ok c') (hl : s.valLen - 1 - 1 ≠ Gen.STACK_SIZE_LIMIT) :
     consOp s = .ok (0, { s with valStack := .pair v1 v2 :: W, valLen := s.valLen - 1 - 1 + 1, ctr := c' }) := by
   unfold consOp
-  rw [pop_cons hv]
+  rw [bs_pop_cons hv]
   simp only [bind, Except.bind]
-  rw [pop_cons (s := { s with valStack := v2 :: W, valLen := s.valLen - 1 }) rfl]
+  rw [bs_pop_cons (s := { s with valStack := v2 :: W, valLen := s.valLen - 1 }) rfl]
   have hl' := beq_eq_false_iff_ne.2 hl
   simp only [allocPair, hp, liftE, MState.push, hl', Bool.false_eq_true, if_false]
   rfl
@@ -840,9 +840,9 @@ theorem applyOp_fwd_op {cfg : Cfg} {d : Dialect} {s : MState} {al o : Val} {W : 
     applyOp cfg d s cc m = .ok (oc, { s with valStack := v :: W, valLen := s.valLen - 1 - 1 + 1,
                                               envStack := E, envLen := s.envLen - 1, ctr := c' }) := by
   unfold applyOp
-  rw [pop_cons hv]
+  rw [bs_pop_cons hv]
   simp only [bind, Except.bind]
-  rw [pop_cons (s := { s with valStack := o :: W, valLen := s.valLen - 1 }) rfl]
+  rw [bs_pop_cons (s := { s with valStack := o :: W, valLen := s.valLen - 1 }) rfl]
   have ha' : (smallNumber o == some d.applyKw) = false := by simpa using ha
   have hs' : (smallNumber o == some d.softforkKw) = false := by simpa using hs
   simp only [he, ha', hs', Bool.false_eq_true, if_false]
@@ -868,9 +868,9 @@ theorem applyOp_fwd_apply {cfg : Cfg} {d : Dialect} {s : MState} {al o : Val} {W
       (evalPair cfg d { s with valStack := W, valLen := s.valLen - 1 - 1, envStack := E, envLen := s.envLen - 1 }
         p e >>= fun r => pure (r.1 + Gen.APPLY_COST, r.2)) := by
   unfold applyOp
-  rw [pop_cons hv]
+  rw [bs_pop_cons hv]
   simp only [bind, Except.bind]
-  rw [pop_cons (s := { s with valStack := o :: W, valLen := s.valLen - 1 }) rfl]
+  rw [bs_pop_cons (s := { s with valStack := o :: W, valLen := s.valLen - 1 }) rfl]
   simp only [he, ha, beq_self_eq_true, if_true, hg, liftE]
 
 /-! ### operand lists: right-to-left evaluation through `SwapEval` / `Cons` -/
